@@ -77,6 +77,13 @@ def open_reader(spec, paths):
     from sigpyproc.header import Header
     from sigpyproc.io.fileio import FileReader
 
+    if spec.get("relpath"):
+        # opened by relative names; the process then moves to a directory with same-named files of other contents
+        def mk(names):
+            h = Header.from_sigproc(names if isinstance(names, list) else [names], check_contiguity=not spec.get("ragged", False))
+            return FileReader(h.stream_info, mode="r", nbits=spec["nbits"]), h
+
+        return vs.open_relative(paths, mk, os.path.dirname(paths[0]))
     hdr = Header.from_sigproc(paths, check_contiguity=not spec.get("ragged", False))
     return FileReader(hdr.stream_info, mode="r", nbits=spec["nbits"]), hdr
 
@@ -266,6 +273,8 @@ def run_history(case, ctx):
     labels = sorted(flags) + [f"{case['stream']['nbits']}bit", f"files{len(case['stream']['sections'])}"]
     if case["stream"].get("ragged"):
         labels.append("ragged")
+    if case["stream"].get("relpath"):
+        labels.append("relative_names_then_chdir")
     if 0 in case["stream"]["sections"]:
         labels.append("empty_file")
     return Info(nontrivial, tuple(labels))
@@ -288,7 +297,7 @@ def stream_spec(draw, max_samples_per_file=6):
             sections[1] = 0
             ragged = True  # contiguity of an empty member is not meaningful: opened without the check
     return {"nbits": nbits, "nchans": nchans, "sections": sections, "seed": draw(st.integers(0, 2**31 - 1)),
-            "ragged": ragged}
+            "ragged": ragged, "relpath": draw(st.sampled_from([False, False, False, True]))}
 
 
 def op_strategy():
